@@ -172,4 +172,85 @@ theorem source_roundtrip_packed_int32 (fuel : Nat) (hf : 11 ≤ fuel) (p : Bytes
   simp [decOf, hso]
   omega
 
+/-- **C01 for the source, bytes / string fields**: if the source's `EncodeBytes(tag, v)` returns and its cursor is still inside
+    the buffer (the payload is copied with `copy`, which truncates silently when the buffer is short — then the cursor ends
+    beyond the buffer), the source's `DecodeTag` + `DecodeBytes` return the same field number, wire type 2 and exactly `v`
+    (up to the 2^31-1 bytes the decoder accepts), and stop where the writer stopped. -/
+theorem source_roundtrip_bytes (fuel : Nat) (hf : 11 ≤ fuel) (p : Bytes) (off tag mode ks ke : BitVec 64) (v : Bytes)
+    (hp : p.length < 2 ^ 62) (hoff : off.toNat ≤ p.length) (hv : v.length ≤ 2147483647)
+    (ht1 : 1 ≤ tag.toNat) (ht : tag.toNat ≤ 536870911)
+    (se : Encoder_EncodeBytes.St) (hret : Encoder_EncodeBytes fuel p off tag v = .ret () se) (hroom : se.e_offset.toNat ≤ p.length) :
+    ∃ sd, Decoder_DecodeTag fuel se.e_p off mode ks ke = .ret (tag, 2#64, .nil) sd ∧
+      ∃ sd2, Decoder_DecodeBytes fuel sd.d_p sd.d_offset sd.d_mode sd.d_keyStart sd.d_keyEnd = .ret (v, .nil) sd2 ∧
+        sd2.d_offset = se.e_offset := by
+  have htm : tag.toNat ≤ maxTagValue := ht
+  have hp63 : p.length < 2 ^ 63 := by omega
+  have hvm : v.length ≤ maxFieldLen := hv
+  generalize hT : encTag tag.toNat wtLen = T
+  generalize hL : encVarint v.length = L
+  -- what the returning encoder call left
+  have href := EncodeBytes_refines fuel (by omega) p off tag v hp (by omega) hoff
+  simp only [Enc.step, hT, hL, Bind.bind, Res.bind] at href
+  have hfit : off.toNat + T.length + L.length + v.length ≤ p.length ∧ se.e_p = writeAt p off.toNat (T ++ (L ++ v)) ∧
+      se.e_offset.toNat = off.toNat + T.length + L.length + v.length := by
+    by_cases h1 : off.toNat + T.length ≤ p.length
+    · rw [store_ok p off.toNat T h1] at href
+      simp only at href
+      have hlen1 : (writeAt p off.toNat T).length = p.length := writeAt_length h1
+      by_cases h2 : off.toNat + T.length + L.length ≤ p.length
+      · rw [store_ok (writeAt p off.toNat T) (off.toNat + T.length) L (by rw [hlen1]; exact h2)] at href
+        have hlen2 : (writeAt (writeAt p off.toNat T) (off.toNat + T.length) L).length = p.length := by
+          rw [writeAt_length (by rw [hlen1]; exact h2), hlen1]
+        simp only [Enc.copy, Enc.copyAdv, Enc.cap, hlen2, h2, if_true, EncOut.ofRes] at href
+        obtain ⟨s, hs, e1, e2⟩ := href
+        rw [hret] at hs; cases hs
+        have h3 : off.toNat + T.length + L.length + v.length ≤ p.length := by rw [e2] at hroom; exact hroom
+        refine ⟨h3, ?_, e2⟩
+        rw [e1, List.take_of_length_le (by omega), writeAt_writeAt p off.toNat T L h2]
+        have : off.toNat + T.length + L.length = off.toNat + (T ++ L).length := by simp only [List.length_append]; omega
+        rw [this, writeAt_writeAt p off.toNat (T ++ L) v (by simp only [List.length_append]; omega), List.append_assoc]
+      · rw [store_panic (writeAt p off.toNat T) (off.toNat + T.length) L (by rw [hlen1]; exact h2)] at href
+        simp only [EncOut.ofRes] at href
+        rw [hret] at href; cases href
+    · rw [store_panic p off.toNat T h1] at href
+      simp only [EncOut.ofRes] at href
+      rw [hret] at href; cases href
+  obtain ⟨h3, hbuf, hend⟩ := hfit
+  have hlenw : (writeAt p off.toNat (T ++ (L ++ v))).length = p.length := writeAt_length (by simp only [List.length_append]; omega)
+  -- DecodeTag
+  have hat0 := decOf_at p off ks ke false (T ++ (L ++ v)) (by simp only [List.length_append]; omega)
+  have hat : (decOf (writeAt p off.toNat (T ++ (L ++ v))) off ks ke false).At (p.take off.toNat)
+      (encTag tag.toNat wtLen ++ (L ++ (v ++ p.drop (off.toNat + (T ++ (L ++ v)).length)))) := by
+    rw [hT]; simpa only [List.append_assoc] using hat0
+  have htag := Dec.tag_at hat ht1 htm (by decide : wtLen < 8)
+  rw [hT] at htag
+  obtain ⟨t, w, e, sd, hdt, hdp, hdm, hmatch⟩ := DecodeTag_refines fuel hf se.e_p off mode ks ke false
+    (by rw [hbuf, hlenw]; exact hp63) (by rw [hbuf, hlenw]; exact hoff)
+  simp only [hbuf] at hmatch hdt hdp
+  rw [htag] at hmatch
+  simp only [Dec.afterTag_off, Dec.afterTag_ks, Dec.afterTag_ke] at hmatch
+  obtain ⟨he, htn, hwn, hso, hsks, hske⟩ := hmatch
+  subst he
+  have htq : tag = t := (bv_eq_of_toNat htn).symm
+  have hwq : (2#64 : BitVec 64) = w := (bv_eq_of_toNat (by rw [hwn]; rfl)).symm
+  subst htq; subst hwq
+  refine ⟨sd, by rw [hbuf]; exact hdt, ?_⟩
+  -- DecodeBytes
+  have hat2 := hat.afterTag
+  rw [hT] at hat2
+  have hd2 : decOf sd.d_p sd.d_offset sd.d_keyStart sd.d_keyEnd false =
+      (decOf (writeAt p off.toNat (T ++ (L ++ v))) off ks ke false).afterTag T.length := by
+    simp only [decOf, Dec.afterTag, hdp, hso, hsks, hske]
+  have hb := Dec.bytes_at (d := decOf sd.d_p sd.d_offset sd.d_keyStart sd.d_keyEnd false) (pre := p.take off.toNat ++ T) (body := v)
+    (post := p.drop (off.toNat + (T ++ (L ++ v)).length)) (by rw [hd2, hL]; simpa [List.append_assoc] using hat2) hvm
+  obtain ⟨x, e2, sd2, hdu, _, _, _, _, hm2⟩ := DecodeBytes_refines fuel hf sd.d_p sd.d_offset sd.d_mode sd.d_keyStart sd.d_keyEnd false
+    (by rw [hdp, hlenw]; exact hp) (by rw [hdp, hlenw, hso]; simp [decOf]; omega)
+  simp only [Dec.step, withAlloc, hb] at hm2
+  obtain ⟨he2, hx, ho2⟩ := hm2
+  subst he2; subst hx
+  refine ⟨sd2, hdu, bv_eq_of_toNat ?_⟩
+  rw [ho2, hend, hL]
+  simp [decOf, hso]
+  omega
+
 end Csproto.C01.Source
